@@ -1,0 +1,32 @@
+//go:build verif
+
+/*
+   Copyright 2020 The Compose Specification Authors.
+
+   Licensed under the Apache License, Version 2.0 (the "License");
+   you may not use this file except in compliance with the License.
+   You may obtain a copy of the License at
+
+       http://www.apache.org/licenses/LICENSE-2.0
+
+   Unless required by applicable law or agreed to in writing, software
+   distributed under the License is distributed on an "AS IS" BASIS,
+   WITHOUT WARRANTIES OR CONDITIONS OF ANY KIND, either express or implied.
+   See the License for the specific language governing permissions and
+   limitations under the License.
+*/
+
+package graph
+
+import "sync/atomic"
+
+// VerifYieldHook, when set, is called at the traversal's internal steps.
+// It only exists in builds with the `verif` tag and lets a test harness
+// stretch the windows between those steps.
+var VerifYieldHook atomic.Pointer[func(step string)]
+
+func yield(step string) {
+	if h := VerifYieldHook.Load(); h != nil {
+		(*h)(step)
+	}
+}
